@@ -84,4 +84,11 @@ UnknownOutside == /\ Position(0) = "unknown" /\ Position(next) = "unknown" /\ Po
                   /\ \A pos \in 1..(next - 1) : Owner(pos) # 0
 NextAbove == \A i \in 1..Len(files) : files[i].base + Len(files[i].data) < next
 Monotone == [][next' > next /\ \A i \in 1..Len(files) : files'[i] = files[i]]_vars
+
+\* refinement: forgetting the contents, a file set is a behaviour of FileSetAbs, whose inductive invariant Apalache
+\* discharges for files of any length (FileSetAbsInd.tla)
+AbsFiles == [i \in 1..Len(files) |-> [base |-> files[i].base, len |-> Len(files[i].data)]]
+Abs == INSTANCE FileSetAbs WITH files <- AbsFiles
+RefinesAbs == Abs!IndInv
+RefinesAbsStep == [][next' - next - 1 >= 0 /\ Abs!DoAdd(next' - next - 1)]_vars
 =============================================================================
